@@ -125,12 +125,13 @@ def subseed(*parts) -> int:
 class Outcome:
     """What the monitors concluded from one case."""
 
-    __slots__ = ("violations", "nontrivial", "key", "counters", "maxima", "skipped", "sample", "notes")
+    __slots__ = ("violations", "nontrivial", "key", "keys", "counters", "maxima", "skipped", "sample", "notes")
 
     def __init__(self):
         self.violations = []  # list of dict(mech=str, detail=str, tags=dict)
         self.nontrivial = False
         self.key = None
+        self.keys = None  # optional: several distinct non-trivial sub-cases inside one case
         self.counters = {}
         self.maxima = {}
         self.skipped = None
